@@ -7,6 +7,6 @@ T_two == {1, 2}
 Ops_all == {"create", "die", "restart", "ac", "auto"}
 Ops_noauto == {"create", "die", "restart", "ac"}
 \* replay: only histories that end with an observation
-PathDumpObs == (Terminal /\ Len(h) > 0 /\ h[Len(h)][1] \in {"ac", "auto"}) =>
+PathDumpObs == (Terminal /\ Len(h) > 0 /\ h[Len(h)][1] \in {"ac", "auto", "autoexc"}) =>
                   PrintT(<<"PATH", ToString(h), ToString([k \in 1..Len(calls) |-> calls[k].y]), Len(reg)>>)
 =============================================================================
